@@ -28,6 +28,8 @@ def _exec_chunk(items):
                 db0 = builder.build_morphed(m, it['route'].split(':')[1].split('+'))
             elif it['route'] == 'moved':
                 db0 = builder.build_moved(m)
+            elif it['route'] == 'built_alias_namesake':
+                db0, m = builder.build_alias_namesake(m)
             elif it['route'] == 'parsed':
                 text0 = print_doc(it['doc'], it['fseed'], it['pinned'])
                 db0 = PyDBML(text0, allow_properties=m['allowprops'])
